@@ -1,4 +1,4 @@
-// Counterexample found by mirsym/z3 for property C19: plusz(N,x,y) ; timesz(N,y,N) answer leaves operand 1 of constraint 0 unbound although the other two are ground e.g. plusz(0, x, y), timesz(-4, y, -4)
+// Counterexample found by mirsym/z3 for property C19: plusz(N,x,y) ; timesz(N,y,N) answer leaves operand 1 of constraint 0 unbound although the other two are ground e.g. plusz(0, x, y), timesz(1, y, -3)
 // Replay: /verif/check C19 --replay /verif/replay/cases/C19-S3_plusz_timesz_plusz_N_x_y_timesz_N_y_N_determined_operand_unbound_c0_pos_1.rs   (runs this program natively against /repo)
 use proto_vulcan::prelude::*;
 #[allow(unused_imports)]
@@ -12,7 +12,7 @@ fn replay() {
         |x, y| {
             q == [x, y],
             plusz(0, x, y),
-            timesz(-4, y, -4)
+            timesz(1, y, -3)
         }
     });
     let expected: isize = -2; // -1: any number of answers, but no panic; -2: no unbound variable in any answer
